@@ -1,4 +1,5 @@
 import GoWebdav.Lemmas.CarddavRead
+import GoWebdav.Lemmas.CarddavAgree
 import GoWebdav.Props.C09Full
 /-!
 # C09, client → wire in RFC 6352 form — against an independent strict reader
@@ -39,6 +40,30 @@ theorem C09_client_multiget_is_rfc (reqPath : String) (escape : String → Strin
     readMultiGet unescape (encodeMultiGet reqPath escape m) =
       some ⟨m.allProp, if m.allProp then [] else m.props, if m.paths.isEmpty then [reqPath] else m.paths⟩ :=
   readMultiGet_enc reqPath escape unescape m hesc
+
+/-- wire → backend for EVERY RFC-conformant document — every tree the strict reader accepts, whoever wrote it and
+    whichever of the DTD's options it uses (DAV:allprop / DAV:propname / DAV:prop or none, explicit default attributes,
+    collation, content-type / version on address-data, novalue on prop, any number and nesting of filters): the server
+    hands the backend exactly the query the document denotes.  The bound is that of a Go `int`. -/
+theorem C09_rfc_document_reaches_backend (n : Node) (q : Query) (h : readQuery n = some q)
+    (hlim : q.limit < 9223372036854775808) : decodeQuery n = .ok (some q) :=
+  GoWebdav.Lemmas.CarddavAgree.decodeQuery_of_read n q h hlim
+
+/-- a conformant document the library's own client never writes (DAV:propname first, explicit default attributes, a
+    collation, versioned address-data with novalue) meets the hypothesis -/
+def foreignDoc : Node :=
+  el "addressbook-query" []
+    [dav "propname" [],
+     el "filter" [att "test" "anyof"]
+       [el "prop-filter" [att "name" "EMAIL", att "test" "allof"]
+          [el "text-match" [att "collation" "i;unicode-casemap", att "negate-condition" "no", att "match-type" "contains"] [.text " x "],
+           el "param-filter" [att "name" "TYPE"] [el "text-match" [att "match-type" "equals"] [.text "home"]]]],
+     el "limit" [] [el "nresults" [] [.text "25"]]]
+
+example : readQuery foreignDoc = some ⟨false, [], "anyof", [⟨"EMAIL", "allof", false, [⟨" x ", false, "contains"⟩],
+    [⟨"TYPE", false, some ⟨"home", false, "equals"⟩⟩]⟩], 25⟩ := by decide
+example : decodeQuery foreignDoc = .ok (some ⟨false, [], "anyof", [⟨"EMAIL", "allof", false, [⟨" x ", false, "contains"⟩],
+    [⟨"TYPE", false, some ⟨"home", false, "equals"⟩⟩]⟩], 25⟩) := by decide
 
 /-- the strict reader is strict: the same query with the limit in the DAV: namespace, a filter before the property
     request, an undeclared attribute, or an enumeration value outside the DTD is refused -/
